@@ -450,6 +450,20 @@ func batchDischarge(u *Unit, obls []*Obligation, dir string, perQueryMs int) {
 		sb.WriteString("(push 1)\n(assert " + Or(u.exitPCs...).S + ")\n(check-sat)\n(pop 1)\n")
 		hasExitCover = true
 	}
+	// vacuity guard 3: an iteration of every loop / an invocation of every callback can be completed. Only an "unsat"
+	// answer means something (the body is dead under the assumed facts); budget: a tenth of an obligation's
+	nProbes := 0
+	if len(u.probes) > 0 {
+		for nf < len(u.facts) {
+			sb.WriteString("(assert " + u.facts[nf] + ")\n")
+			nf++
+		}
+		fmt.Fprintf(&sb, "(set-option :rlimit %d)\n", perQueryMs*250)
+		for _, p := range u.probes {
+			sb.WriteString("(push 1)\n(assert " + p.pc.S + ")\n(check-sat)\n(pop 1)\n")
+		}
+		nProbes = len(u.probes)
+	}
 	file := filepath.Join(dir, fmt.Sprintf("u%06d.smt2", obls[0].id))
 	if err := os.WriteFile(file, []byte(sb.String()), 0o666); err != nil {
 		return
@@ -492,8 +506,19 @@ parse:
 		u.coverStatus = answers[0]
 		answers = answers[1:]
 	}
-	if hasExitCover && len(answers) == len(obls)+1 && ctx.Err() == nil {
-		u.exitCover = answers[len(answers)-1]
+	nExit := 0
+	if hasExitCover {
+		nExit = 1
+	}
+	if len(answers) == len(obls)+nExit+nProbes && ctx.Err() == nil {
+		if hasExitCover {
+			u.exitCover = answers[len(obls)]
+		}
+		for i, a := range answers[len(obls)+nExit:] {
+			if a == "unsat" {
+				u.vacuous = append(u.vacuous, u.probes[i].what)
+			}
+		}
 	}
 	for i, o := range obls {
 		if i >= len(answers) {
